@@ -111,6 +111,9 @@ def validate(ctx, tier, seed):
 
 
 def replay(ctx, v):
+    if str(v.get('kind', '')).startswith('bridge-') or (v.get('kind') == 'panic' and 'pregrounded' in v.get('case', {})):
+        from . import c06bridge
+        return c06bridge.replay(ctx, v)
     if v.get('canon'):
         out = ctx.native().call({'cmd': 'compile', 'text': v['text'], 'mode': v['mode'], 'sort': 'none'}, timeout=120)
         return 'reproduced', out
@@ -123,6 +126,9 @@ def replay(ctx, v):
 
 
 def key(v):
+    if str(v.get('kind', '')).startswith('bridge-') or (v.get('kind') == 'panic' and 'pregrounded' in v.get('case', {})):
+        from . import c06bridge
+        return c06bridge.key(v)
     if v.get('canon'):
         import hashlib
         return 'canon:%s:%s' % (v['mode'], hashlib.sha1(v['text'].encode()).hexdigest()[:12])
@@ -137,6 +143,11 @@ ASSUMPTIONS = [
 ]
 
 
+def bridge_jobs(tier, seed):
+    from . import c06bridge
+    return c06bridge.jobs(tier, random.Random(seed * 977 + 5))
+
+
 def spec(ctx, tier, seed, prop):
     ctx.engine()
     def extra(ctx_):
@@ -144,11 +155,12 @@ def spec(ctx, tier, seed, prop):
         return c09.canonicity_run(ctx_, tier, seed)
     return {
         'extra': extra if prop == 'C06' else None,
-        'jobs': bddjobs.make_jobs(Job, tier, seed, prop),
+        'jobs': bddjobs.make_jobs(Job, tier, seed, prop) + (bridge_jobs(tier, seed) if prop == 'C06' else []),
         'level': 'model_checking',
         'assumptions': ASSUMPTIONS,
         'bounds': 'operands = all functions of n=2 variables (complete, all operations, all pairs); n=3 with one operand symbolic and the other drawn from VERIF_SEED; '
                   'operation histories of length 2 (quick) / 3 (thorough) on one store with operands chosen among all issued handles, incl. re-import of the node list; '
                   'thorough adds all pairs at n=3 for and/xor and an n=4 family; restriction variable in 0..n, both values',
-        'outside': 'n>=4 beyond the seeded family; histories longer than 3; bridge conversions are decided per compiled instance (coverage.bridge_*), not for all inputs',
+        'outside': 'n>=4 beyond the seeded family; histories longer than 3; bridge conversions: symbolically for all two-statement ADFs and seeded three-statement families on the biodivine '
+                   'contract model (C06), and per compiled instance with the real biodivine library (coverage.bridge_*)',
     }
